@@ -398,10 +398,21 @@ def initWorld (N : Int) (np : Nat) (blocks : List (List Vertex)) : World PRank :
     { nGlobal := N, nodes := ownedNodes N np p (blocks.getD p []), cells := List.replicate 16 [], geoms := [],
       cad := [] }
 
+/-- is `x` among the first `n` entries of `l` -/
+def memFirst : Nat → List Int → Int → Bool
+  | 0, _, _ => false
+  | _, [], _ => false
+  | n + 1, y :: ys, x => x == y || memFirst n ys x
+
+/-- are the first `n` entries of `a` all among the first `m` entries of `b` -/
+def subFirst (m : Nat) (b : List Int) : Nat → List Int → Bool
+  | 0, _ => true
+  | _, [] => true
+  | n + 1, x :: xs => memFirst m b x && subFirst m b n xs
+
 /-- `ref_cell_with`: a stored cell with the same SET of vertices (order and id do not matter) -/
 def sameSet (nodePer : Nat) (a b : Cell) : Bool :=
-  (a.take nodePer).all (fun x => (b.take nodePer).contains x) &&
-  (b.take nodePer).all (fun x => (a.take nodePer).contains x)
+  subFirst nodePer b nodePer a && subFirst nodePer a nodePer b
 
 /-- the cell loop of `ref_cell_add_many_global`: `ref_cell_with`, then `ref_cell_add` when not found
     (`(REF_INT)` of the id column) -/
